@@ -71,6 +71,7 @@ func (f *frame) noteEvent(kind string, callee any, args []Term, results []Term) 
 	if strings.HasSuffix(w, "!") && !f.top {
 		return
 	}
+	vc.watchHit[w] = true
 	f.recordEvent(w, args, results)
 }
 
@@ -134,6 +135,9 @@ func valueName(v ssa.Value) string {
 	case *ssa.Call:
 		if sc := x.Call.StaticCallee(); sc != nil {
 			return "ret." + normName(sc.String())
+		}
+		if x.Call.IsInvoke() {
+			return "ret." + normName("("+fullType(x.Call.Value.Type())+")."+x.Call.Method.Name())
 		}
 	}
 	return "value." + v.Name()
@@ -825,6 +829,7 @@ func (f *frame) selectInstr(x *ssa.Select) {
 			continue
 		}
 		chosen := mkEq(idx, i64(int64(i)))
+		vc.watchHit[w] = true
 		n := f.st.get("G$ncalls$"+w, SBV64)
 		f.st.set("G$ncalls$"+w, vc.define("G$ncalls$"+w, mkIte(chosen, bvAdd(n, i64(1)), n)))
 		c := f.st.get("G$called$"+w, SBool)
@@ -839,6 +844,7 @@ func (f *frame) selectInstr(x *ssa.Select) {
 			// a send happens iff this case is chosen
 			w, ok := vc.watched("send:" + valueName(s.Chan))
 			if ok {
+				vc.watchHit[w] = true
 				chosen := mkEq(idx, i64(int64(i)))
 				n := f.st.get("G$ncalls$"+w, SBV64)
 				f.st.set("G$ncalls$"+w, vc.define("G$ncalls$"+w, mkIte(chosen, bvAdd(n, i64(1)), n)))
@@ -1187,6 +1193,7 @@ func (f *frame) taintEvents(callees []*ssa.Function, skip map[string]bool) {
 		if !may {
 			continue
 		}
+		vc.watchHit[w] = true
 		d := vc.declareFresh(f.prefix+"ev$d", SBV64)
 		vc.assume(mkAnd(sle(i64(0), d), sle(d, bvLit(64, 1<<32))))
 		some := vc.define(f.prefix+"ev$some", slt(i64(0), d))
